@@ -38,6 +38,9 @@ type c02Case struct {
 	MEnc string `json:"menc,omitempty"`
 	// Field: the field name handed to SetGenHeader / SetHeader (default X-Custom / X-Alias)
 	Field string `json:"field,omitempty"`
+	// Only: the part / file description (and Content-ID) is given to 0 = every part or file, 1 = only the first one,
+	// 2 = only the last one (the message then has three body parts and two files of each kind)
+	Only int `json:"only,omitempty"`
 }
 
 // c02GenFields: go-mail's Header constants that have no setter of their own, plus two registered names without constant.
@@ -65,6 +68,10 @@ func c02Build(shape int, b bool, sets [][2]interface{}, late bool, charset strin
 	genField, aliasField := "X-Custom", "X-Alias"
 	if len(menc) > 1 && menc[1] != "" {
 		genField, aliasField = menc[1], menc[1]
+	}
+	only := 0
+	if len(menc) > 2 && menc[2] != "" {
+		only = int(menc[2][0] - '0')
 	}
 	if len(menc) > 0 {
 		switch menc[0] {
@@ -139,11 +146,23 @@ func c02Build(shape int, b bool, sets [][2]interface{}, late bool, charset strin
 	if v, ok := val(12); ok {
 		po = append(po, mail.WithPartContentDescription(v))
 	}
-	if shape < 3 {
-		m.SetBodyString(mail.TypeTextPlain, "plain body\r\n", po...)
+	poFor := func(i, n int) []mail.PartOption {
+		if only == 0 || (only == 1 && i == 0) || (only == 2 && i == n-1) {
+			return po
+		}
+		return nil
 	}
-	if shape >= 1 && shape < 3 {
-		m.AddAlternativeString(mail.TypeTextHTML, "<p>html body</p>\r\n", po...)
+	if shape < 3 && only != 0 {
+		m.SetBodyString(mail.TypeTextPlain, "plain body\r\n", poFor(0, 3)...)
+		m.AddAlternativeString(mail.TypeTextHTML, "<p>html body</p>\r\n", poFor(1, 3)...)
+		m.AddAlternativeString(mail.ContentType("text/x-amp-html"), "<p>third body</p>\r\n", poFor(2, 3)...)
+	} else {
+		if shape < 3 {
+			m.SetBodyString(mail.TypeTextPlain, "plain body\r\n", po...)
+		}
+		if shape >= 1 && shape < 3 {
+			m.AddAlternativeString(mail.TypeTextHTML, "<p>html body</p>\r\n", po...)
+		}
 	}
 	prod := func(content string) *mail.File {
 		return &mail.File{Header: textproto.MIMEHeader{}, Writer: producer2([]byte(content))}
@@ -183,6 +202,29 @@ func c02Build(shape int, b bool, sets [][2]interface{}, late bool, charset strin
 		case 4: // nothing but one embed
 			m.SetEmbeds([]*mail.File{emb})
 		default:
+			if only != 0 {
+				// two files of each kind; the attribute goes to the first or to the last of each kind only
+				att2, emb2 := prod("second attachment"), prod("second embed")
+				att2.Name, emb2.Name = "att2.bin", "emb2.png"
+				att2.Desc, emb2.Desc = att.Desc, emb.Desc
+				if v, ok := val(13); ok {
+					mail.WithFileContentID(v)(emb2)
+				}
+				strip := func(f *mail.File) {
+					f.Desc = ""
+					f.Header.Del("Content-ID")
+				}
+				if only == 1 {
+					strip(att2)
+					strip(emb2)
+				} else {
+					strip(att)
+					strip(emb)
+				}
+				m.SetAttachments([]*mail.File{att, att2})
+				m.SetEmbeds([]*mail.File{emb, emb2})
+				break
+			}
 			m.SetAttachments([]*mail.File{att})
 			m.SetEmbeds([]*mail.File{emb})
 		}
@@ -383,7 +425,7 @@ func c02ExecOne(r *vf.Run, k c02Case) []finding {
 		var serr, werr error
 		pan, pw := vf.Guard(func() {
 			var m *mail.Msg
-			m, serr = c02Build(k.Shape, k.B, s, k.Late, k.Charset, k.MEnc, k.Field)
+			m, serr = c02Build(k.Shape, k.B, s, k.Late, k.Charset, k.MEnc, k.Field, []string{"", "1", "2"}[k.Only])
 			if serr == nil {
 				_, werr = m.WriteTo(&buf)
 			}
@@ -507,6 +549,33 @@ func c02ExecOne(r *vf.Run, k c02Case) []finding {
 		}
 		return nil
 	}
+	// pick: of the leaves that satisfy pred, the one that carries the attribute (the first, or with Only=2 the last); with
+	// Only set, the field must be ABSENT from the others
+	pick := func(field string, pred func(e *mimeread.Entity) bool) *mimeread.Entity {
+		var ls []*mimeread.Entity
+		for _, l := range hl {
+			if pred(l) {
+				ls = append(ls, l)
+			}
+		}
+		if len(ls) == 0 {
+			return nil
+		}
+		if k.Only == 0 {
+			return ls[0]
+		}
+		own := 0
+		if k.Only == 2 {
+			own = len(ls) - 1
+		}
+		for i, l := range ls {
+			if i != own && field != "" && len(l.Get(field)) > 0 {
+				add(fmt.Sprintf("field-on-another-part/%s", sname), "%s was given to one part only, but leaf %d of %d of that kind carries it as well: %q", field, i+1, len(ls), l.First(field))
+			}
+		}
+		return ls[own]
+	}
+	isBody := func(e *mimeread.Entity) bool { return e.First("Content-Disposition") == "" }
 	switch sname {
 	case "subject":
 		g, err := dec(he.First("Subject"))
@@ -576,20 +645,28 @@ func c02ExecOne(r *vf.Run, k c02Case) []finding {
 		g, err = dec(l.Params["name"])
 		chk("name parameter", g, err, wantN)
 	case "file-description":
-		l := findLeaf(func(e *mimeread.Entity) bool {
+		l := pick("Content-Description", func(e *mimeread.Entity) bool {
 			return strings.HasPrefix(strings.ToLower(e.First("Content-Disposition")), "attachment")
 		})
 		if l != nil {
 			g, err := dec(l.First("Content-Description"))
 			chk("Content-Description of the attachment", g, err, want)
 		}
+		pick("Content-Description", func(e *mimeread.Entity) bool {
+			return strings.HasPrefix(strings.ToLower(e.First("Content-Disposition")), "inline")
+		})
 	case "part-description":
-		if len(hl) > 0 {
+		if k.Only != 0 {
+			if l := pick("Content-Description", isBody); l != nil {
+				g, err := dec(l.First("Content-Description"))
+				chk("Content-Description of the part it was given to", g, err, want)
+			}
+		} else if len(hl) > 0 {
 			g, err := dec(hl[0].First("Content-Description"))
 			chk("Content-Description of the first part", g, err, want)
 		}
 	case "content-id":
-		l := findLeaf(func(e *mimeread.Entity) bool {
+		l := pick("", func(e *mimeread.Entity) bool { // (go-mail gives every embed a Content-ID of its own)
 			return strings.HasPrefix(strings.ToLower(e.First("Content-Disposition")), "inline")
 		})
 		if l != nil && (vc == "plain") {
@@ -675,7 +752,7 @@ func init() {
 	vf.Register(&vf.Check{
 		ID: "C02", Title: "no caller-supplied text can alter the header block",
 		Run: func(r *vf.Run) {
-			r.SetRule("17 text-accepting setters (subject, generic header (SetGenHeader and its deprecated alias SetHeader), From/To/Cc/Reply-To and Disposition-Notification-To display names, message-id, organisation, user-agent, attachment and embed file names, file and part descriptions, content-id) × values {every byte 0..255 at start/middle/end of a carrier; all 2-grams (thorough: 3-grams) over 16 dangerous symbols CR LF NUL TAB SP \" \\ < > : ; = ? 0x80 0xFF ü; lengths 0,1,74..79,200,1000; classic injection payloads; values that as a whole look like one RFC 2047 encoded-word with every 2-gram of the symbols inside the wrapper} × header encoder {Q, B, and whatever go-mail uses for 8bit / 7bit messages} × shape {single part, alternative, mixed+related; for the file attributes also a message that is nothing but one attachment / one embed} × message charset {UTF-8 (all), US-ASCII, ISO-8859-1, UTF-7}, alone, (2-grams) in pairs of setters, and — for the file and part attributes — applied to the existing File / Part objects after a first rendering (second rendering judged); oracle is differential: every header section must have exactly the field names of the same message built with a benign value, bodies unchanged, and the value must decode back (RFC 2047, WSP-normalised; file names after the documented '_' replacement) unless the setter returned an error; distinct by case tuple")
+			r.SetRule("17 text-accepting setters (subject, generic header (SetGenHeader and its deprecated alias SetHeader), From/To/Cc/Reply-To and Disposition-Notification-To display names, message-id, organisation, user-agent, attachment and embed file names, file and part descriptions, content-id) × values {every byte 0..255 at start/middle/end of a carrier; all 2-grams (thorough: 3-grams) over 16 dangerous symbols CR LF NUL TAB SP \" \\ < > : ; = ? 0x80 0xFF ü; lengths 0,1,74..79,200,1000; classic injection payloads; values that as a whole look like one RFC 2047 encoded-word with every 2-gram of the symbols inside the wrapper} × header encoder {Q, B, and whatever go-mail uses for 8bit / 7bit messages} × shape {single part, alternative, mixed+related; for the file attributes also a message that is nothing but one attachment / one embed} × message charset {UTF-8 (all), US-ASCII, ISO-8859-1, UTF-7}, alone, (2-grams) in pairs of setters, and — for the file and part attributes — applied to the existing File / Part objects after a first rendering (second rendering judged); oracle is differential: every header section must have exactly the field names of the same message built with a benign value, bodies unchanged, and the value must decode back (RFC 2047, WSP-normalised; file names after the documented '_' replacement) unless the setter returned an error; distinct by case tuple; the part / file attributes also given to the first or the last of three body parts / two files of a kind only (the others must not carry the field)")
 			r.Assume("*Preformatted setters are raw by contract and excluded", "header names, content types and charsets are typed constants, not free text",
 				"message-id / content-id values are only compared when they are printable ASCII without blanks and angle brackets")
 			vals := c02Values(r.Thorough)
@@ -712,6 +789,17 @@ func init() {
 							continue
 						}
 						cases = append(cases, c02Case{Setter: s, Value: v, Shape: (vi + fi) % 3, B: (vi+fi)%2 == 0, Setter2: -1, Field: f})
+					}
+				}
+			}
+			// the part / file attributes given to the first or to the last of three body parts / two files of a kind only
+			for only := 1; only <= 2; only++ {
+				for _, s := range []int{11, 12, 13} {
+					for vi, v := range vals {
+						if !r.Thorough && vi >= 768 && len(v) > 2 && (vi+s)%2 != only-1 {
+							continue
+						}
+						cases = append(cases, c02Case{Setter: s, Value: v, Shape: 1 + (vi+s)%2, B: vi%2 == 0, Setter2: -1, Only: only})
 					}
 				}
 			}
